@@ -308,23 +308,29 @@ Proof.
   - reflexivity.
 Qed.
 
-(* ------------------------------------------------------------------ Merge into an empty histogram of the same shape *)
+(* ------------------------------------------------------------------ Merge *)
 Section Merge.
-Variable hs : hist.                        (* the source *)
+Variables hs t0 : hist.                    (* the source; the target before the merge *)
 Hypothesis Ws : wf lo hi sig hs.
+Hypothesis Wt0 : wf lo hi sig t0.
+Hypothesis St0 : same_geom t0 hs.
+Hypothesis Sum : h_total t0 + h_total hs < 2 ^ 63.
 
 Definition tinv (p : Z) (t : hist) : Prop :=
   wf lo hi sig t /\ same_geom t hs /\
-  (forall i, h_counts t i = if i <=? p then h_counts hs i else 0) /\
-  h_total t = cum (h_counts hs) p.
+  (forall i, h_counts t i = h_counts t0 i + (if i <=? p then h_counts hs i else 0)) /\
+  h_total t = h_total t0 + cum (h_counts hs) p.
 
 Lemma merge_loop_spec : forall fuel p it t,
   it_at lo sig hs p it -> tinv p t -> h_clen hs - p <= Z.of_nat fuel ->
   exists t', merge_loop fuel hs it t 0 = Ok (t', 0) /\
-             wf lo hi sig t' /\ same_geom t' hs /\ (forall i, h_counts t' i = h_counts hs i) /\
-             h_total t' = h_total hs.
+             wf lo hi sig t' /\ same_geom t' hs /\
+             (forall i, h_counts t' i = h_counts t0 i + h_counts hs i) /\
+             h_total t' = h_total t0 + h_total hs.
 Proof.
   pose proof (wf_geom _ _ _ _ Ws) as G.
+  assert (T0nn : 0 <= h_total t0).
+  { rewrite (wf_total _ _ _ _ Wt0). apply cum_nonneg. apply (wf_nonneg _ _ _ _ Wt0). }
   induction fuel as [|f IH]; intros p it t Hat (Wt & St & Ct & Tt) Hf.
   - destruct Hat as ((? & ?) & _). lia.
   - cbn [merge_loop]. assert (Hpl : -1 <= p) by (destruct Hat as ((? & _) & _); lia).
@@ -337,8 +343,8 @@ Proof.
       split; [|lia].
       intros i. rewrite Ct. destruct (i <=? p) eqn:Ei; [reflexivity|].
       destruct (Z.lt_ge_cases i (h_clen hs)).
-      * symmetry. apply (cum_flat_zero (h_counts hs) p (h_clen hs - 1) i (wf_nonneg _ _ _ _ Ws) Ecum); lia.
-      * symmetry. apply (wf_out _ _ _ _ Ws). lia.
+      * rewrite (cum_flat_zero (h_counts hs) p (h_clen hs - 1) i (wf_nonneg _ _ _ _ Ws) Ecum); lia.
+      * rewrite (wf_out _ _ _ _ Ws i); lia.
     + destruct (B C) as (Hp1 & it' & E & Hat'). rewrite E.
       pose proof Hat' as (Hp' & Hidx' & Hto' & Hc').
       destruct Hc' as [(? & _)|(Hp0 & Cn & Hb & Hca & Hv & Hh & Hv0 & Hht & Hhe)]; [lia|].
@@ -355,7 +361,6 @@ Proof.
         pose proof (wf_nonneg _ _ _ _ Ws (p + 1)) as Cnn. fold c in Cnn.
         pose proof (cum_le_total lo hi sig hs Ws (p + 1)) as Cle1.
         rewrite (cum_step _ (p + 1)) in Cle1 by lia. replace (p + 1 - 1) with p in Cle1 by lia. fold c in Cle1.
-        pose proof (wf_small _ _ _ _ Ws) as Sm.
         pose proof (record_values_spec lo hi sig t v c Wt ltac:(lia) ltac:(lia)) as (Eok & W' & S' & _ & Hacc).
         assert (Hvt : 0 <= v < top u m t).
         { rewrite (top_same t hs St).
@@ -375,29 +380,65 @@ Proof.
            ++ assert (i = p + 1) by lia. subst i.
               destruct (p + 1 <=? p) eqn:E2; [lia|]. destruct (p + 1 <=? p + 1) eqn:E3; [|lia]. unfold c. lia.
            ++ destruct (i <=? p) eqn:E2, (i <=? p + 1) eqn:E3; try reflexivity; lia.
-        -- rewrite T', Tt. rewrite (cum_step _ (p + 1)) by lia. replace (p + 1 - 1) with p by lia. reflexivity.
+        -- rewrite T', Tt. rewrite (cum_step _ (p + 1)) by lia. replace (p + 1 - 1) with p by lia. unfold c. lia.
 Qed.
 
-Theorem merge_into_empty_equal t : new_hist lo hi sig = Ok t ->
+(* Merge of two histograms of the same shape: nothing dropped, counts and totals add up *)
+Theorem merge_same_shape :
+  exists t', merge t0 hs = Ok (t', 0) /\ wf lo hi sig t' /\ same_geom t' hs /\
+             (forall i, h_counts t' i = h_counts t0 i + h_counts hs i) /\
+             h_total t' = h_total t0 + h_total hs.
+Proof.
+  assert (I : tinv (-1) t0).
+  { split; [assumption|]. split; [assumption|]. split.
+    - intros i. destruct (i <=? -1) eqn:Ei; [|lia]. rewrite (wf_out _ _ _ _ Ws i); lia.
+    - rewrite cum_neg by lia. lia. }
+  unfold merge.
+  apply (merge_loop_spec (walk_fuel hs) (-1) iter_init t0 (it_at_init lo hi sig hs Ws) I).
+  unfold walk_fuel. lia.
+Qed.
+
+End Merge.
+
+Theorem merge_into_empty_equal hs t : wf lo hi sig hs -> new_hist lo hi sig = Ok t ->
   exists t', merge t hs = Ok (t', 0) /\ equals t' hs = Ok true /\ total_count t' = total_count hs.
 Proof.
-  intros N0. destruct (new_wf lo hi sig SH) as (t0 & E & Wt & Tt & Ct). rewrite N0 in E. inversion E; subst t0.
+  intros Ws N0. destruct (new_wf lo hi sig SH) as (t0 & E & Wt & Tt & Ct). rewrite N0 in E. inversion E; subst t0.
   destruct (wf_new _ _ _ _ Ws) as (h0 & N1 & S1). rewrite N0 in N1. inversion N1; subst h0.
-  assert (I : tinv (-1) t).
-  { split; [assumption|]. split; [apply same_geom_sym; assumption|]. split.
-    - intros i. rewrite Ct. destruct (i <=? -1) eqn:Ei; [|reflexivity]. symmetry. apply (wf_out _ _ _ _ Ws). lia.
-    - rewrite Tt, cum_neg by lia. reflexivity. }
-  unfold merge.
-  destruct (merge_loop_spec (walk_fuel hs) (-1) iter_init t (it_at_init lo hi sig hs Ws) I
-              ltac:(unfold walk_fuel; lia)) as (t' & Em & W' & S' & C' & T').
-  exists t'. split; [assumption|]. split; [|assumption].
-  apply equals_true; [assumption|assumption| |intros; apply C'].
+  pose proof (wf_small _ _ _ _ Ws) as Sm.
+  destruct (merge_same_shape hs t Ws Wt (same_geom_sym _ _ S1) ltac:(lia)) as (t' & Em & W' & S' & C' & T').
+  exists t'. split; [assumption|]. split; [|unfold total_count; lia].
+  apply equals_true; [assumption|lia| |intros; rewrite C', Ct; lia].
   pose proof S' as (_ & _ & _ & _ & _ & _ & _ & _ & _ & Ec).
   rewrite (wf_len _ _ _ _ W'), (wf_len _ _ _ _ Ws), Ec.
   pose proof (clen_pos lo hi sig hs Ws). lia.
 Qed.
 
-End Merge.
+(* WindowedHistogram.Merge: m.Reset(), then every window merged in; the result holds every window's counts *)
+Fixpoint sum_totals (l : list hist) : Z := match l with [] => 0 | h :: t => h_total h + sum_totals t end.
+Fixpoint sum_counts (l : list hist) (i : Z) : Z := match l with [] => 0 | h :: t => h_counts h i + sum_counts t i end.
+
+Lemma w_merge_all_spec : forall (l : list hist) (mh : hist),
+  Forall (wf lo hi sig) l -> wf lo hi sig mh -> h_total mh + sum_totals l < 2 ^ 63 ->
+  exists m', w_merge_all l mh = Ok m' /\ wf lo hi sig m' /\
+             h_total m' = h_total mh + sum_totals l /\
+             (forall i, h_counts m' i = h_counts mh i + sum_counts l i).
+Proof.
+  induction l as [|h t IH]; intros mh Wl Wm Hs.
+  - exists mh. cbn. split; [reflexivity|]. split; [assumption|]. split; [lia|intros; lia].
+  - inversion Wl as [|? ? Wh Wt]; subst. cbn [w_merge_all sum_totals sum_counts] in *.
+    assert (Tnn : 0 <= sum_totals t).
+    { clear -Wt. induction Wt as [|x r Wx _ IHr]; cbn; [lia|].
+      assert (0 <= h_total x) by (rewrite (wf_total _ _ _ _ Wx); apply cum_nonneg; apply (wf_nonneg _ _ _ _ Wx)). lia. }
+    assert (Sg : same_geom mh h).
+    { destruct (wf_new _ _ _ _ Wm) as (a & Na & Sa). destruct (wf_new _ _ _ _ Wh) as (b & Nb & Sb).
+      rewrite Na in Nb. inversion Nb; subst b. eapply same_geom_trans; [eassumption|apply same_geom_sym; assumption]. }
+    destruct (merge_same_shape h mh Wh Wm Sg ltac:(lia)) as (m1 & Em & W1 & _ & C1 & T1).
+    rewrite Em.
+    destruct (IH m1 Wt W1 ltac:(lia)) as (m' & E' & W' & T' & C').
+    exists m'. split; [assumption|]. split; [assumption|]. split; [lia|].
+    intros i. rewrite C', C1. lia.
+Qed.
 
 (* ------------------------------------------------------------------ no walk panics or runs out of fuel *)
 Section NoPanic.
